@@ -1,4 +1,7 @@
 import LoraVerif.Props.C10
+import LoraVerif.Props.TieA.RegionDispatch
+import LoraVerif.Props.TieA.RegionCfgOps
+import LoraVerif.Props.TieA.RxWindowsGet
 import LoraVerif.Props.TieA.C10
 import LoraVerif.Props.C05Size
 import LoraVerif.Props.TieA.MacTopTx
